@@ -76,9 +76,9 @@ CONTRACTS = {
         "note": "getattr(self.__class__, name): class attribute lookup (reflection)",
     },
     "sa.inst_attr": {
-        "kind": "external", "params": {"obj": f"Ref:{SA}", "name": "Str", "default": "Real"}, "returns": "Real",
-        "ensures": {"instance attribute set by on_enable from the dashboard, else the default":
-                    "result == (num(obj.g_attrs[name]) if has(obj.g_attrs, name) else default)"},
+        "kind": "external", "params": {"obj": f"Ref:{SA}", "name": "Str", "default": "Opt[Real]"}, "returns": "Opt[Real]",
+        "ensures": {"instance attribute set by on_enable from the dashboard, else the default (whatever the caller passes, None included)":
+                    "(result is not None and unwrap(result) == num(obj.g_attrs[name])) if has(obj.g_attrs, name) else (result == default)"},
         "note": "getattr(self, '<state>_duration', 0xFFFFFFFF) reads the attribute written by on_enable's setattr loop",
     },
     "sa.setattr": {
